@@ -40,6 +40,9 @@ checks = {
  "C13": ("exploration", "6/C13",
          "Seeded simulation (sequential: no schedule dimension, stated in DESIGN.md) of generated histories through ocifilter.Sub(prefix) over a recording backend that also holds sibling repositories sharing a textual prefix. Caller-supplied names include empty, dot, dot-dot, leading/trailing/doubled slashes and upper case; an auth scope travels in the context. Oracle: every backend call names exactly prefix/n (or the call never reaches the backend), nothing outside the prefix is changed, repository listings from any start point are exactly the stripped names (reference model of the restricted registry), and the context scope reaches the backend rewritten for every method.",
          "deterministic simulation: seeded histories with a recording backend monitor and a reference model of the restricted registry; choice-trace replay and minimisation"),
+ "C14": ("exploration", "6/C14",
+         "Seeded simulation of generated histories through ocifilter.ReadOnly (every mutating call must fail as UNSUPPORTED without reaching the recording backend; the underlying registry is read back against the model afterwards), through ocifilter.Immutable and against ocimem in immutable-tags mode (table of first observations per tag: every later resolve/get agrees in digest and bytes; no delete succeeds through the wrapper; after every step everything a tagged manifest transitively references - walked the way a puller would, by served media type - is retrievable; plus the reference model), and concurrent runs of 2-4 tasks against an immutable-tags ocimem under the deterministic scheduler (engine A) and under the race detector with raw-pipe hand-off (engine B).",
+         "deterministic simulation: seeded histories with first-observation and closure invariants and a recording backend; seeded schedules over instrumented lock sites; race detector under a controlled serial schedule; choice-trace replay and minimisation"),
 }
 
 na = [
